@@ -412,6 +412,10 @@ func runC14(c *eng.Ctx) {
 	}
 	n := ruleSentinelIdentity(c, "R14.6", roots, "the handler takes its `any other error` branch, which panics: a truncated replication response kills the follower")
 	c.Check(n >= 1, "handleReplicationResponse tells a malformed message set apart", "", "identity comparison with commitlog.ErrInvalidMessageSet found", "no comparison with commitlog.ErrInvalidMessageSet in handleReplicationResponse: every append error is fatal there")
+	// ---- R14.7 (extension) a message that cannot be encoded is refused, not fatal
+	c.Rule("R14.7", "K3")
+	ruleEncodeFailureIsAnError(c)
+
 }
 
 func isParamData(v ssa.Value) bool {
